@@ -92,13 +92,32 @@ def run(ctx):
             if fn['dk'] == 'Closure' or 'hir' not in fn:
                 continue
             for nd in H.walk(fn['hir']):
+                # every branch on a Result<_, Error> that takes the Err side and does nothing with it, in either spelling:
+                # `match x { .., Err(..) => {} }` or `if let Ok(..) = x { .. }` without an else
                 if nd.get('k') == 'Match' and nd.get('src') == 'Normal' and ERR_T.match(nd['scrut'].get('ty', '') or ''):
+                    subj = nd['scrut'].get('ty')  # what the discarded error came with (rename-proof)
                     for a in nd['arms']:
                         pt = H.pat_term(a['pat'], True)
                         body = H.term(a['body'])
-                        if pt.startswith('Err(') and body in ('{}', '()', 'Ok(())', '{Ok(())}'):
-                            SW.append((p, pt, H.term(a['guard']) if a.get('guard') else None))
-        want = [('io_loop::IoLoop::handle_steady_event', 'Err(errors::Error::UnexpectedSocketClose)', 'match state {io_loop::connection_state::ConnectionState::ClientClosed => true; _ => false}')]
+                        if (pt.startswith('Err(') or pt == '_') and body in ('{}', '()', 'Ok(())', '{Ok(())}'):
+                            SW.append((ctx.owner(p), subj, pt, H.term(a['guard']) if a.get('guard') else None))
+                if nd.get('k') == 'If' and nd['cond'].get('k') == 'LetExpr' and ERR_T.match(nd['cond']['init'].get('ty', '') or ''):
+                    pt = H.pat_term(nd['cond']['pat'], True)
+                    els = nd.get('else')
+                    if pt.startswith('Ok(') and (els is None or H.term(els) in ('{}', '()')):
+                        subj = nd['cond']['init'].get('ty')
+                        SW.append((ctx.owner(p), subj, 'Err(_)', None))
+        SW = sorted(set(SW), key=lambda x: tuple(str(y) for y in x))
+        PROC, HSP = 'io_loop::connection_state::ConnectionState::process', 'io_loop::handshake_state::HandshakeState::process'
+        want = sorted([
+            # EOF behind the server's CloseOk is the normal end of a client-initiated close (C08)
+            ('io_loop::IoLoop::handle_steady_event', 'std::result::Result<(), errors::Error>', 'Err(errors::Error::UnexpectedSocketClose)', 'match state {io_loop::connection_state::ConnectionState::ClientClosed => true; _ => false}'),
+            # the late CloseOk of a channel the server closed first: the slot is gone already (documented race, C09/C20)
+            (PROC, 'std::result::Result<io_loop::ChannelSlot, errors::Error>', 'Err(_)', None),
+            # handshake probes: "is this frame a Secure / a Close?" -- the frame is then read as what must follow instead
+            (HSP, 'std::result::Result<amq_protocol::protocol::connection::Secure, errors::Error>', 'Err(_)', None),
+            (HSP, 'std::result::Result<amq_protocol::protocol::connection::Close, errors::Error>', 'Err(_)', None),
+        ], key=lambda x: tuple(str(y) for y in x))
         r.eq('swallowing-arms', SW, want, ctx.site('io_loop::IoLoop::handle_steady_event'),
              why='an EOF before CloseOk (or any other error) that is swallowed leaves the I/O thread polling a dead socket: close() and every caller hang')
 
